@@ -16,10 +16,11 @@ TERMINATORS = (0x2C, 0x5D, 0x7D, 0x20, 0x09, 0x0A, 0x0D)
 _mem = {}
 
 
-def get(prog, flags, max_depth=2):
+def get(prog, flags, max_depth=2, alpha=None):
     """(NT, nodes, parent, truncated) for the two representative contexts (top level, array element); cached on disk by the IR
     of json_tokener.c / json_util.c and the engine sources"""
-    key = (id(prog), flags, max_depth)
+    alpha = alpha or numtok.NUM_ALPHA
+    key = (id(prog), flags, max_depth, alpha.name)
     if key in _mem:
         return _mem[key]
     irh = "-".join(u["hash"] for u in prog.units if u["file"] in ("json_tokener.c", "json_util.c"))
@@ -28,14 +29,14 @@ def get(prog, flags, max_depth=2):
     for f in ("numtok.py", "tokauto.py", "pe.py", "strpe.py", "ir.py"):
         with open(os.path.join(here, f), "rb") as fh:
             h.update(fh.read())
-    tag = "num-%s-%s-f%d-d%d-%s" % (prog.variant, irh, flags, max_depth, h.hexdigest()[:12])
+    tag = "%s-%s-%s-f%d-d%d-%s" % (alpha.name[:3], prog.variant, irh, flags, max_depth, h.hexdigest()[:12])
     cdir = os.path.join(WORK, "tok")
     os.makedirs(cdir, exist_ok=True)
     path = os.path.join(cdir, tag + ".pkl")
     T = tokauto.get_table(prog, flags, max_depth)
-    ents = numtok.number_entries(T)
+    ents = numtok.number_entries(T, alpha.states)
     if not ents:
-        raise AnalysisBroken("no configuration of the tokener starts a number token")
+        raise AnalysisBroken("no configuration of the tokener starts a %s token" % alpha.name)
     # representative contexts: the top level and one nested position (the number state's code does not look at the parent)
     top = [e for e in ents if e[0] == 0 and T.state_name.get(e[1][0][1]) == "start"]
     nested = [e for e in ents if e not in top]
@@ -45,20 +46,20 @@ def get(prog, flags, max_depth=2):
         try:
             with open(path, "rb") as fh:
                 nodes, parent, truncated, stats = pickle.load(fh)
-            NT = numtok.NumTable(prog, flags, max_depth)
+            NT = numtok.NumTable(prog, flags, max_depth, alpha)
             NT.stats = dict(stats, cached=True)
             res = (NT, nodes, parent, truncated)
         except Exception:
             res = None
     if res is None:
         NT, nodes, parent, truncated = numtok.explore(prog, flags, max_depth, chosen,
-                                                      budget_s=float(os.environ.get("JCV_TOK_BUDGET", "150")) * 2)
+                                                      budget_s=float(os.environ.get("JCV_TOK_BUDGET", "150")) * 2, alpha=alpha)
         tmp = path + ".tmp%d" % os.getpid()
         with open(tmp, "wb") as fh:
             pickle.dump((nodes, parent, truncated, NT.stats), fh)
         os.rename(tmp, path)
         for f in os.listdir(cdir):
-            if f.startswith("num-%s-" % prog.variant) and ("-f%d-d%d-" % (flags, max_depth)) in f and f != tag + ".pkl":
+            if f.startswith("%s-%s-" % (alpha.name[:3], prog.variant)) and ("-f%d-d%d-" % (flags, max_depth)) in f and f != tag + ".pkl":
                 try:
                     os.unlink(os.path.join(cdir, f))
                 except OSError:
@@ -171,7 +172,7 @@ def rule_valid_numbers(chk, prog, rid, modes=((0, "default"), (F_STRICT, "strict
             chk.undecided(rid, "json_tokener_parse_ex", "%s mode: calls on the token text that are not modelled" % mname, "json_tokener.c",
                           "the token buffer is passed to %s, whose effect on the decision is not modelled" % sorted(opaque))
         if truncated:
-            chk.undecided(rid, "json_tokener_parse_ex", "%s mode: texts beyond %d characters" % (mname, numtok.MAXTEXT), "json_tokener.c",
+            chk.undecided(rid, "json_tokener_parse_ex", "%s mode: texts beyond %d characters" % (mname, numtok.NUM_ALPHA.maxtext), "json_tokener.c",
                           "the saved text grows without bound along %d paths (e.g. %r); those were not followed"
                           % (len(truncated), _show(numtok.witness(parent, truncated[0]))))
     chk.floor(rid, n, 400, "number continuation / conversion obligations")
@@ -220,7 +221,7 @@ def rule_strict_numbers(chk, prog, rid):
         chk.undecided(rid, "json_tokener_parse_ex", "calls on the token text that are not modelled", "json_tokener.c",
                       "the token buffer is passed to %s, whose effect on the decision is not modelled" % sorted(opaque))
     if truncated:
-        chk.undecided(rid, "json_tokener_parse_ex", "texts beyond %d characters" % numtok.MAXTEXT, "json_tokener.c",
+        chk.undecided(rid, "json_tokener_parse_ex", "texts beyond %d characters" % numtok.NUM_ALPHA.maxtext, "json_tokener.c",
                       "the saved text grows without bound along %d paths; those were not followed" % len(truncated))
     chk.floor(rid, n, 100, "numeric constructions examined")
 
@@ -240,41 +241,49 @@ def _shape(t):
     return "malformed number"
 
 
-def rule_split_numbers(chk, prog, rid, maxlen=4, modes=((0, "default"), (F_STRICT, "strict"))):
-    """C03: inside a number, a call with two bytes behaves like two calls with one byte each"""
-    chk.rule(rid, "number tokens: from every reachable (configuration, saved text) pair with a text of up to %d canonical characters "
+def rule_split_numbers(chk, prog, rid, maxlen=4, modes=((0, "default"), (F_STRICT, "strict")), alpha=None, text=None):
+    """C03: inside a number (or literal), a call with two bytes behaves like two calls with one byte each"""
+    alpha = alpha or numtok.NUM_ALPHA
+    chk.rule(rid, text or "number tokens: from every reachable (configuration, saved text) pair with a text of up to %d canonical characters "
                   "(every combination of 'has exponent marker', 'marker is last', 'last is the decimal point', empty / non-empty), "
                   "feeding two bytes in one call and in two calls gives the same status, consumed count, successor configuration, "
                   "saved text and conversions: the state re-derived from the saved text on resumption equals the state carried "
                   "inside a call" % maxlen)
     n = 0
     for flags, mname in modes:
-        data = get(prog, flags)
+        data = get(prog, flags, alpha=alpha)
         NT, nodes, parent, truncated, chosen, nents = data
-        sel = [nd for nd in nodes if nd[1] is not None and len(nd[1]) <= maxlen and NT.top_state(nd[0]) == NT.NUMBER]
-        # also the entry configurations (first byte of the number and the one after it in one call)
+        sel = [nd for nd in nodes if nd[1] is not None and len(nd[1]) <= maxlen and NT.top_state(nd[0]) in NT.TRACKED]
+        # also the entry configurations (first byte of the token and the one after it in one call)
         sel += [nd for nd in nodes if nd[1] is None]
-        allb = [(cn, REP[bs[0]]) for cn, bs in CLASSES] + [(",", 0x2C), ("]", 0x5D), (" ", 0x20), ("x", 0x78)]
+        ncls = len(alpha.classes)
+        allb = [(cn, alpha.rep[bs[0]]) for cn, bs in alpha.classes] + [(",", 0x2C), ("]", 0x5D), (" ", 0x20), ("x", 0x78)]
         tasks = []
+
+        def stays(nd, c1n):
+            first = [o for cn, o in nodes[nd] if cn == c1n]
+            return bool(first) and all(o.err == 1 and o.next is not None and NT.top_state(o.next) in NT.TRACKED for o in first)
         for nd in sel:
-            for c1n, b1 in allb[:7]:
-                if nd[1] is None and c1n not in ("0", "1-9", "-"):
+            for c1n, b1 in allb[:ncls]:
+                if nd[1] is None and c1n not in alpha.entry:
                     continue
+                if not stays(nd, c1n):
+                    continue      # the first byte ends the token or fails: that boundary is the general automaton's (C03.R6)
                 for c2n, b2 in allb:
                     tasks.append((nd[0], nd[1], "%s|%s" % (c1n, c2n), [(b1, b2)], 2))
-        res2 = _pairs_parallel(prog, flags, tasks)
+        res2 = _pairs_parallel(prog, flags, tasks, alpha)
         bad = []
         opaque = 0
         for nd in sel:
-            for c1n, b1 in allb[:7]:
-                if nd[1] is None and c1n not in ("0", "1-9", "-"):
+            for c1n, b1 in allb[:ncls]:
+                if nd[1] is None and c1n not in alpha.entry:
                     continue
                 first = [o for cn, o in nodes[nd] if cn == c1n]
                 for c2n, b2 in allb:
-                    n += 1
                     whole = res2.get((nd[0], nd[1], "%s|%s" % (c1n, c2n)))
                     if whole is None:
                         continue
+                    n += 1
                     split = _compose(NT, nodes, nd, first, b2)
                     if split is None:
                         continue          # the first byte ended the token or failed: covered by the general automaton's rule
@@ -290,7 +299,7 @@ def rule_split_numbers(chk, prog, rid, maxlen=4, modes=((0, "default"), (F_STRIC
             nd, b1, b2, a, b = bad[0]
             w = numtok.witness(parent, nd)
             chk.refuted(rid, "json_tokener_parse_ex", sig, "json_tokener.c",
-                        "after the saved number text %r, the bytes %r in one call give %s but split between them they give %s"
+                        "after the saved token text %r, the bytes %r in one call give %s but split between them they give %s"
                         % (_show(w), bytes([b1, b2]).decode("latin-1"), a, b), {"count": len(bad)})
         elif opaque:
             chk.undecided(rid, "json_tokener_parse_ex", sig, "json_tokener.c",
@@ -306,7 +315,7 @@ def rule_split_numbers(chk, prog, rid, maxlen=4, modes=((0, "default"), (F_STRIC
 def _summary(NT, o, consumed_expected):
     return (NT.err_name.get(o.err, str(o.err)), o.consumed,
             NT.cfg_str(NT.canon(o.next)) if (o.next is not None and o.err in (0, 1)) else None,
-            o.text if (o.next is not None and o.err in (0, 1) and NT.top_state(o.next) == NT.NUMBER) else None,
+            o.text if (o.next is not None and o.err in (0, 1) and NT.top_state(o.next) in NT.TRACKED) else None,
             tuple(sorted(set(o.calls) & set(INT_CTORS + DBL_CTORS))), bool(o.ret_nonnull))
 
 
@@ -315,7 +324,7 @@ def _compose(NT, nodes, nd, first, b2):
     stay inside the number"""
     out = []
     for o1 in first:
-        if o1.err != 1 or o1.next is None or NT.top_state(o1.next) != NT.NUMBER:
+        if o1.err != 1 or o1.next is None or NT.top_state(o1.next) not in NT.TRACKED:
             return None
         nn = (o1.next, o1.text)
         if nn not in nodes:
@@ -331,11 +340,11 @@ def _compose(NT, nodes, nd, first, b2):
     return out
 
 
-def _pairs_parallel(prog, flags, tasks):
+def _pairs_parallel(prog, flags, tasks, alpha=None):
     """2-byte walks: byte domain is a single (b1, b2) pair"""
     import multiprocessing as mp
     ctx = mp.get_context("fork")
-    pool = ctx.Pool(min(16, os.cpu_count() or 1), initializer=numtok._worker_init, initargs=(prog, flags, 2, 1800))
+    pool = ctx.Pool(min(16, os.cpu_count() or 1), initializer=numtok._worker_init, initargs=(prog, flags, 2, 1800, alpha))
     out = {}
     try:
         for key, outs, err in pool.imap_unordered(_pair_step, tasks, chunksize=16):
@@ -357,3 +366,109 @@ def _pair_step(task):
     except AnalysisBroken as e:
         return ((cfg, text, name), None, str(e))
     return ((cfg, text, name), outs, None)
+
+
+# ---------------------------------------------------------------------------------------------------------------
+# literal tokens (null / true / false, and json-c's NaN)
+LITERALS = {b"null": None, b"true": ("json_object_new_boolean", 1), b"false": ("json_object_new_boolean", 0)}
+
+
+def _lit_result(o):
+    """what a completed literal produced: ('json_object_new_boolean', 1) / None for no constructor / 'other'"""
+    cs = [(n, a) for n, a in o.callargs if n.startswith("json_object_new_")]
+    if not cs:
+        return None
+    if len(cs) == 1 and cs[0][0] == "json_object_new_boolean":
+        return ("json_object_new_boolean", cs[0][1][0])
+    return ("other", tuple(n for n, _ in cs))
+
+
+def rule_literals(chk, prog, rid_valid, rid_strict, rid_default):
+    """literal tokens with the token buffer modelled: exact lowercase literals are read in both modes with the right value (C01),
+    strict mode follows nothing but the exact spellings (C16), default mode reads every case variant as the lowercase one (C16)"""
+    lit = numtok.LIT_ALPHA
+    if rid_valid:
+        chk.rule(rid_valid, "literal tokens, token buffer modelled: in both modes the letters of null / true / false are appended one by one "
+                            "with status 'continue', and the byte after the last letter (',', ']', '}', space, tab, CR, LF) completes the "
+                            "token without error: no node for null, json_object_new_boolean(1) for true, (0) for false")
+    if rid_strict:
+        chk.rule(rid_strict, "strict mode, literal tokens: every reachable saved text in the literal states is a case-exact prefix of "
+                             "null, true, false (or json-c's NaN); any other spelling has already failed")
+    if rid_default:
+        chk.rule(rid_default, "default mode, literal tokens: every upper/lower-case spelling of null, true and false is completed like the "
+                              "lowercase one (same constructor and argument)")
+    for flags, mname in ((0, "default"), (F_STRICT, "strict")):
+        data = get(prog, flags, alpha=lit)
+        NT, nodes, parent, truncated, chosen, nents = data
+        describe(chk, "literals_%s" % mname, data)
+        bytext = {}
+        for nd in nodes:
+            if nd[1] is not None:
+                bytext.setdefault(nd[1], []).append(nd)
+        if rid_valid:
+            for word, want in sorted(LITERALS.items()):
+                sig = "%s mode: %s" % (mname, word.decode())
+                missing = [word[:k] for k in range(1, len(word) + 1) if word[:k] not in bytext]
+                if missing:
+                    chk.refuted(rid_valid, "json_tokener_parse_ex", sig, "json_tokener.c",
+                                "the prefix %r of the literal is not accepted (fed one byte per call)" % missing[0].decode())
+                    continue
+                bad = None
+                nterm = 0
+                for nd in bytext[word]:
+                    for cname, o in nodes[nd]:
+                        terms = [b % 256 for b in o.bytes if (b % 256) in TERMINATORS]
+                        if not terms:
+                            continue
+                        nterm += 1
+                        en = NT.err_name.get(o.err, o.err)
+                        if en in ("error_parse_null", "error_parse_boolean") or _lit_result(o) != want:
+                            bad = bad or (terms[0], en, _lit_result(o))
+                if bad:
+                    chk.refuted(rid_valid, "json_tokener_parse_ex", sig, "json_tokener.c",
+                                "%r followed by %r gives status %s and constructs %s (expected %s)" % (word.decode(), chr(bad[0]), bad[1], bad[2], want))
+                elif nterm == 0:
+                    chk.undecided(rid_valid, "json_tokener_parse_ex", sig, "json_tokener.c", "no terminator step found")
+                else:
+                    chk.proven(rid_valid, "json_tokener_parse_ex", sig, "json_tokener.c", "%d terminator steps complete the literal" % nterm)
+        if rid_strict and flags == F_STRICT:
+            allowed = set()
+            for w in list(LITERALS) + [b"NaN"]:
+                for k in range(1, len(w) + 1):
+                    allowed.add(w[:k])
+                # the byte after the last letter is appended before the comparison: the text may be one byte longer
+            badt = sorted(t for t in bytext if t not in allowed and t[:-1] not in allowed)
+            badt = [t for t in badt if not any(t[:len(w)] == w for w in list(LITERALS) + [b"NaN"])]
+            if badt:
+                chk.refuted(rid_strict, "json_tokener_parse_ex", "strict: reachable literal texts", "json_tokener.c",
+                            "strict mode is still reading a literal after the text %r, which is not a case-exact prefix of null / true / false"
+                            % badt[0].decode("latin-1"), {"texts": [t.decode("latin-1") for t in badt[:10]]})
+            else:
+                chk.proven(rid_strict, "json_tokener_parse_ex", "strict: reachable literal texts", "json_tokener.c",
+                           "%d reachable texts, all case-exact prefixes" % len(bytext))
+            chk.floor(rid_strict, len(bytext), 10, "literal texts reachable in strict mode")
+        if rid_default and flags == 0:
+            from itertools import product as iproduct
+            n = 0
+            bad = None
+            for word, want in sorted(LITERALS.items()):
+                for mask in iproduct((0, 1), repeat=len(word)):
+                    v = bytes((c - 32) if m else c for c, m in zip(word, mask))
+                    n += 1
+                    if v not in bytext:
+                        bad = bad or (v, "is rejected before it is complete", None)
+                        continue
+                    for nd in bytext[v]:
+                        for cname, o in nodes[nd]:
+                            terms = [b % 256 for b in o.bytes if (b % 256) in TERMINATORS]
+                            if not terms:
+                                continue
+                            en = NT.err_name.get(o.err, o.err)
+                            if en in ("error_parse_null", "error_parse_boolean") or _lit_result(o) != want:
+                                bad = bad or (v, "followed by %r gives status %s and constructs %s" % (chr(terms[0]), en, _lit_result(o)), want)
+            if bad:
+                chk.refuted(rid_default, "json_tokener_parse_ex", "default: case variants", "json_tokener.c",
+                            "the spelling %r %s" % (bad[0].decode(), bad[1]))
+            else:
+                chk.proven(rid_default, "json_tokener_parse_ex", "default: case variants", "json_tokener.c", "%d spellings completed like the lowercase literal" % n)
+            chk.floor(rid_default, n, 64, "case variants of the three literals")
